@@ -741,3 +741,126 @@ Theorem want_in_use_fails frs w stream h : FragsOK frs -> In h (scan_uuid frs w)
 Proof.
   intros HOK Hin. unfold generate_uuid, in_use. apply (matches_exact frs w h HOK) in Hin. destruct (matches frs w); [destruct Hin|reflexivity].
 Qed.
+
+(* ------------------------------------------------------------ navigation across fragment boundaries *)
+Definition all_nodes (frs : list frag) : list node := flat_map fnodes frs.
+Definition is_placeholder_of (n p : node) : bool :=
+  match nhref p with Some r => mem r (nall n) | None => false end.
+(* specification: the parent in the single-file (glued) tree — by scanning the nodes, no index *)
+Definition glued_parent (frs : list frag) (n : node) : option Z :=
+  match npar n with
+  | Some p => Some p
+  | None => match find (is_placeholder_of n) (all_nodes frs) with Some p => npar p | None => None end
+  end.
+
+Definition GlobalHandles (frs : list frag) : Prop := NoDup (map nh (all_nodes frs)).
+
+Lemma find_node_spec ns h n : NoDup (map nh ns) -> In n ns -> nh n = h -> find_node ns h = Some n.
+Proof.
+  induction ns as [|x ns IH]; intros Hnd Hin Hh; [destruct Hin|].
+  cbn in Hnd. apply NoDup_cons_iff in Hnd as [Hni Hnd]. unfold find_node. cbn [find].
+  destruct (nh x =? h) eqn:E.
+  - apply Z.eqb_eq in E. destruct Hin as [->|Hin]; [reflexivity|].
+    exfalso. apply Hni. apply in_map_iff. exists n. split; [congruence|exact Hin].
+  - destruct Hin as [->|Hin]; [rewrite Hh, Z.eqb_refl in E; discriminate|]. now apply IH.
+Qed.
+Lemma find_node_none ns h : (forall n, In n ns -> nh n <> h) -> find_node ns h = None.
+Proof.
+  induction ns as [|x ns IH]; intro H; [reflexivity|]. unfold find_node. cbn [find].
+  destruct (nh x =? h) eqn:E; [apply Z.eqb_eq in E; exfalso; apply (H x); [now left|exact E]|].
+  apply IH. intros n Hn. apply H. now right.
+Qed.
+
+Lemma all_nodes_cons fr frs : all_nodes (fr :: frs) = fnodes fr ++ all_nodes frs.
+Proof. reflexivity. Qed.
+
+Lemma find_in_frags_spec frs : forall fr n, GlobalHandles frs -> In fr frs -> In n (fnodes fr) ->
+  exists fr', find_in_frags frs (nh n) = Some (fr', n).
+Proof.
+  induction frs as [|f frs IH]; intros fr n Hg Hfr Hn; [destruct Hfr|].
+  unfold GlobalHandles in Hg. rewrite all_nodes_cons, map_app in Hg. cbn [find_in_frags].
+  destruct Hfr as [->|Hfr].
+  - rewrite (find_node_spec (fnodes fr) (nh n) n); eauto.
+    clear -Hg. induction (map nh (fnodes fr)) as [|a l IHl]; [constructor|]. cbn in Hg. apply NoDup_cons_iff in Hg as [H1 H2].
+    constructor; [intro Hi; apply H1; apply in_or_app; now left|now apply IHl].
+  - rewrite find_node_none.
+    + apply (IH fr n); [now apply NoDup_app_r in Hg|exact Hfr|exact Hn].
+    + intros m Hm E. apply (NoDup_app_disj _ _ (nh n) Hg).
+      * apply in_map_iff. exists m. auto.
+      * apply in_map_iff. exists n. split; [reflexivity|]. unfold all_nodes. apply in_flat_map. eauto.
+Qed.
+
+(* the index-based placeholder search finds a node whose href names the id *)
+Lemma unfollow_sound frs u ph : FragsOK frs -> unfollow frs u = Some ph ->
+  exists fr p, In fr frs /\ In p (fnodes fr) /\ nh p = ph /\ nhref p = Some u.
+Proof.
+  induction frs as [|f frs IH]; intros HOK H; [discriminate|]. apply Forall_cons_iff in HOK as [Hf Hrest].
+  cbn [unfollow] in H. destruct (get u (hrs (fidx f))) as [h|] eqn:E.
+  - inversion H; subst. destruct Hf as (_ & _ & _ & HH). apply HH in E. unfold hpairs in E. apply in_flat_map in E as [p [Hp Hi]].
+    destruct (nhref p) as [r|] eqn:Er; [|destruct Hi]. destruct Hi as [Hi|[]]. inversion Hi; subst. exists f, p. repeat split; auto. now left.
+  - destruct (IH Hrest H) as [fr [p [H1 H2]]]. exists fr, p. split; [now right|exact H2].
+Qed.
+Lemma unfollow_complete frs u fr p : FragsOK frs -> In fr frs -> In p (fnodes fr) -> nhref p = Some u ->
+  exists ph, unfollow frs u = Some ph.
+Proof.
+  induction frs as [|f frs IH]; intros HOK Hfr Hp Hr; [destruct Hfr|]. apply Forall_cons_iff in HOK as [Hf Hrest].
+  cbn [unfollow]. destruct (get u (hrs (fidx f))) as [h|] eqn:E; [eauto|].
+  destruct Hfr as [->|Hfr]; [|now apply IH].
+  exfalso. destruct Hf as (_ & _ & _ & HH). assert (In (u, nh p) (hpairs (fnodes fr))).
+  { unfold hpairs. apply in_flat_map. exists p. split; [exact Hp|]. rewrite Hr. now left. }
+  apply HH in H. congruence.
+Qed.
+
+(* Uniqueness of the placeholder: at most one node of the whole forest carries an href to one of
+   the ids of [n] — this is what a well-formed fragmented model guarantees for a fragment root *)
+Definition UniquePlaceholder (frs : list frag) (n : node) : Prop :=
+  forall p1 p2, In p1 (all_nodes frs) -> In p2 (all_nodes frs) ->
+    is_placeholder_of n p1 = true -> is_placeholder_of n p2 = true -> p1 = p2.
+
+Lemma first_some_sound {A B} (f : A -> option B) l y : first_some f l = Some y -> exists x, In x l /\ f x = Some y.
+Proof.
+  induction l as [|a l IH]; cbn; [discriminate|]. destruct (f a) eqn:E.
+  - intro H. inversion H; subst. exists a. auto.
+  - intro H. destruct (IH H) as [x [H1 H2]]. exists x. auto.
+Qed.
+Lemma first_some_none {A B} (f : A -> option B) l : first_some f l = None -> forall x, In x l -> f x = None.
+Proof.
+  induction l as [|a l IH]; cbn; [intros _ x []|]. destruct (f a) eqn:E; [discriminate|].
+  intros H x [<-|Hx]; [exact E|now apply IH].
+Qed.
+
+Theorem parent_of_glue frs fr n :
+  FragsOK frs -> GlobalHandles frs -> In fr frs -> In n (fnodes fr) -> UniquePlaceholder frs n ->
+  parent_of frs (nh n) = glued_parent frs n.
+Proof.
+  intros HOK Hg Hfr Hn Huniq. unfold parent_of, glued_parent.
+  destruct (find_in_frags_spec frs fr n Hg Hfr Hn) as [fr' E]. rewrite E.
+  destruct (npar n) as [p|]; [reflexivity|].
+  destruct (first_some (unfollow frs) (nall n)) as [ph|] eqn:Efs.
+  - apply first_some_sound in Efs as [u [Hu Hun]].
+    destruct (unfollow_sound frs u ph HOK Hun) as [frp [p [Hfrp [Hp [Hph Hhr]]]]].
+    destruct (find_in_frags_spec frs frp p Hg Hfrp Hp) as [frp' Ep]. rewrite Hph in Ep. rewrite Ep.
+    assert (Hpl : is_placeholder_of n p = true) by (unfold is_placeholder_of; rewrite Hhr; now apply mem_In).
+    assert (Hpin : In p (all_nodes frs)) by (unfold all_nodes; apply in_flat_map; eauto).
+    destruct (find (is_placeholder_of n) (all_nodes frs)) as [p'|] eqn:Ef.
+    + apply find_some in Ef as [Hp'in Hp'pl]. now rewrite (Huniq p' p Hp'in Hpin Hp'pl Hpl).
+    + exfalso. eapply find_none in Ef; [|exact Hpin]. congruence.
+  - destruct (find (is_placeholder_of n) (all_nodes frs)) as [p'|] eqn:Ef; [|reflexivity].
+    exfalso. apply find_some in Ef as [Hp'in Hp'pl]. unfold is_placeholder_of in Hp'pl.
+    destruct (nhref p') as [r|] eqn:Er; [|discriminate]. apply mem_In in Hp'pl.
+    unfold all_nodes in Hp'in. apply in_flat_map in Hp'in as [frp [Hfrp Hp']].
+    destruct (unfollow_complete frs r frp p' HOK Hfrp Hp' Er) as [ph Eu].
+    pose proof (first_some_none _ _ Efs r Hp'pl). congruence.
+Qed.
+
+(* hence whole parent chains coincide with those of the glued tree *)
+Fixpoint glued_ancestors_fuel (fuel : nat) (gp : Z -> option Z) (h : Z) : list Z :=
+  match fuel with
+  | O => []
+  | S fuel => match gp h with Some p => p :: glued_ancestors_fuel fuel gp p | None => [] end
+  end.
+Theorem ancestors_glue frs gp : (forall h, parent_of frs h = gp h) ->
+  forall fuel h, ancestors_fuel fuel frs h = glued_ancestors_fuel fuel gp h.
+Proof.
+  intros Hp. induction fuel as [|fuel IH]; intro h; [reflexivity|]. cbn. rewrite Hp. destruct (gp h); [now rewrite IH|reflexivity].
+Qed.
